@@ -1022,6 +1022,63 @@ def tcp_leak_run(ctx, model, spare, extra, bad=None):
         proc.stdout.close()
 
 
+def tcp_reset_run(ctx, cmd):
+    """a TCP client sends a well-formed request and RESETS the connection (SO_LINGER 0) after the registry has read it and
+    before the reply is written; the schedule is forced by holding the command (wrapped on the instance) until the reset has
+    happened.  A second, well-behaved client must then still be answered."""
+    srv = TCPSrv(host="127.0.0.1", port=0, pruning_timeout=240, logger=_quiet)
+    got_request, client_gone, armed = threading.Event(), threading.Event(), [False]
+    name = "cmd_" + cmd
+    orig = getattr(srv, name)
+
+    def held(*a):
+        if armed[0]:
+            armed[0] = False
+            got_request.set()
+            client_gone.wait(LIMIT)
+            _time.sleep(0.3)            # let the RST arrive
+        return orig(*a)
+    setattr(srv, name, held)            # found by getattr(self, "cmd_...") in _work
+    th = _start(srv)
+    port = srv.port
+    case = {"kind": "tcp-reset", "cmd": cmd}
+    rude = None
+    try:
+        reg = _tcp_request(port, dg("RPYC", "REGISTER", (("foo",), 1234)), LIMIT)
+        armed[0] = True
+        rude = socket.socket(socket.AF_INET, socket.SOCK_STREAM)
+        rude.settimeout(LIMIT)
+        rude.connect(("127.0.0.1", port))
+        rude.sendall(dg("RPYC", "QUERY", ("foo",)) if cmd == "query" else dg("RPYC", "REGISTER", (("foo",), 1234)))
+        seen = got_request.wait(LIMIT)
+        rude.setsockopt(socket.SOL_SOCKET, socket.SO_LINGER, struct.pack("ii", 1, 0))
+        rude.close()                    # -> RST
+        rude = None
+        client_gone.set()
+        if reg != brine.dump("OK") or not seen:
+            ctx.tie_broken("harness:tcp-reset-setup", "register %r, request seen %r" % (reg, seen))
+            return
+        want = brine.dump((("127.0.0.1", 1234),))
+        ans = _tcp_request(port, dg("RPYC", "QUERY", ("foo",)), LIMIT)
+        if ans != want:
+            _time.sleep(0.3)
+        alive = th.is_alive() and srv.crash is None
+        ctx.case(("tcp-reset", cmd), nontrivial=True, sample={"tcp_reset": cmd, "alive": alive, "answer": ans.hex()})
+        ctx.count("socket:tcp-reset-run")
+        if ans != want:
+            ctx.violation("tcp-client-reset-before-reply-ends-registry" if not alive else "tcp-client-unanswered-after-reset", case,
+                          observed="second client got %r; server thread alive: %s; error: %r" % (ans.hex(), th.is_alive(), srv.crash),
+                          expected="the second client is answered: " + want.hex(),
+                          what="a client that sends a well-formed %s and resets its connection before the reply is written makes the error of the reply's "
+                               "send escape the main loop: the registry stops and every later client is refused" % cmd.upper())
+    finally:
+        client_gone.set()
+        if rude is not None:
+            rude.close()
+        if not _stop(srv, th):
+            ctx.tie_broken("harness:tcp-server-did-not-stop", "")
+
+
 class StockTCPSrv(NoteMixin, R.TCPRegistryServer):
     notes = None            # stock TIMEOUT
 
@@ -1077,7 +1134,7 @@ def run(ctx):
         "plus a systematic sweep of every shape in every position of every command against a populated table; registrations whose port is nested "
         "up to the deepest value the decoder still accepts from inside _work (found by bisection on every run) followed by queries, and deep values "
         "in the other positions; real UDP/TCP loopback runs (numeric command, silent and partial TCP clients; a TCP server process with a lowered "
-        "descriptor limit receiving more unanswered requests than it has descriptors; stock server and client constants with one silent client; "
+        "descriptor limit receiving more unanswered requests than it has descriptors; stock server and client constants with one silent client; a client that resets its connection after a well-formed request, the reply being held until the reset happened; "
         "60 / 90 registrants of one name and 48 bulky ports against the stock UDP client); answers beyond MAX_DGRAM_SIZE and NaN ports (plain and nested) "
         "also without sockets. non-trivial = at least 3 datagrams of which at least 2 are well-formed commands; "
         "distinct by the full datagram sequence" % len(SHAPES))
@@ -1121,6 +1178,9 @@ def run(ctx):
         tcp_leak_run(ctx, model, 20, 5, b"")
         tcp_leak_run(ctx, model, 20, 5, dg("RPYC", "QUERY", (5,)))
     tcp_stock_run(ctx)
+    tcp_reset_run(ctx, "query")
+    if not ctx.quick:
+        tcp_reset_run(ctx, "register")
 
 
 def replay(ctx, rep):
@@ -1138,5 +1198,7 @@ def replay(ctx, rep):
         udp_big_run(ctx, [bytes.fromhex(h) for h in case["regs"]], case["label"])
     elif case.get("kind") == "tcp-leak":
         tcp_leak_run(ctx, model, case["spare"], case["extra"], bytes.fromhex(case["bad"]))
+    elif case.get("kind") == "tcp-reset":
+        tcp_reset_run(ctx, case["cmd"])
     elif case.get("kind") == "tcp-stock":
         tcp_stock_run(ctx)
